@@ -538,6 +538,8 @@ class CorrelationFunction(DFunction, UnitsManaged):
                 raise Exception("Cannot add two correlation functions on different temperatures")
     
             self.data += other.data
+            # interpolation splines, if any, belong to the earlier data
+            self._splines_initialized = False
             self.lamb += other.lamb  # reorganization energy is additive
             if other.cutoff_time > self.cutoff_time: 
                 self.cutoff_time = other.cutoff_time  
@@ -574,6 +576,8 @@ class CorrelationFunction(DFunction, UnitsManaged):
                 raise Exception("Cannot add two correlation functions on different temperatures")
     
             self.data += ocor.data
+            # interpolation splines, if any, belong to the earlier data
+            self._splines_initialized = False
             self.lamb += ocor.lamb  # reorganization energy is additive
             if ocor.cutoff_time > self.cutoff_time: 
                 self.cutoff_time = ocor.cutoff_time  
